@@ -290,8 +290,14 @@ def run(tier: str, seed: int) -> int:
     # 1. S->C: skeletons
     scopes = [(A1, 5), (R.JJ_KINDS, 3)] if tier == "quick" else [(A1, 6), (R.JJ_KINDS, 4)]
     skel: Dict[tuple, bool] = {}
-    for alphabet, n in scopes:
-        m = R.run_part("jj", n, jj_alphabet=alphabet, invariants=["JjBalanced"], timeout=2400, heap="12g")
+    from concurrent.futures import ThreadPoolExecutor
+
+    w = max(1, int(os.environ.get("VF_PROCS", "14") or 14) // 2)
+    with ThreadPoolExecutor(2) as ex:       # the two enumerations are independent; both finish before any fork
+        futs = [ex.submit(R.run_part, "jj", n, jj_alphabet=alphabet, invariants=["JjBalanced"], timeout=2400,
+                          heap="4g", workers=w) for alphabet, n in scopes]
+    for (alphabet, n), fut in zip(scopes, futs):
+        m = fut.result()
         expect_model_ok(m, "Render(jj): skeleton enumeration")
         rep.model(m, f"balanced template skeletons <= {n} fragments over {len(alphabet)} kinds")
         got = [r for r in m.records if "frags" in r]
